@@ -192,6 +192,8 @@ static Verdict runOn(const DescT<Obj>& d, const Case& c, Info& info)
         return Verdict::pass();
     }
     // mode 0: API writes -> raw bytes
+    if (d.lengthCell >= 0 && ((c.seed >> 3) & 1))
+        setCellBE(bgBytes, d.cells[static_cast<size_t>(d.lengthCell)], imageSize - d.headerSize);  // length agrees with the data area
     Obj o = d.fromImage(bgBytes);
     Bytes expect = d.image(o);
     VF_CHECK(expect.size() == d.headerSize, d.name << ": object exposes " << expect.size() << " header bytes");
@@ -217,6 +219,35 @@ static Verdict runOn(const DescT<Obj>& d, const Case& c, Info& info)
     }
     for (size_t i = 0; i < c.ops.size(); ++i)
     {
+        if (c.ops[i].field >= 0x8000)
+        {
+            if (!d.dataSetter)
+                continue;
+            // setData: the length field (and the DLC where the length has a code) appear in the raw header at their places,
+            // every other header byte stays, the data follows the header
+            const uint64_t v = c.ops[i].value;
+            const size_t held = d.data(o).size();
+            size_t n = ((v >> 32) % 3 == 0) ? std::min(held, d.maxData) : static_cast<size_t>((v >> 40) % (d.maxData + 1));
+            Bytes bytes = fillBytes(static_cast<uint32_t>(v), n);
+            d.dataSetter(o, bytes);
+            Bytes img = d.image(o);
+            VF_CHECK(img.size() == d.headerSize, d.name << ": after setData the object exposes " << img.size() << " header bytes");
+            for (const auto& e : d.dataEffects)
+            {
+                uint64_t cv = 0;
+                const Cell& cell = d.cells[static_cast<size_t>(e.first)];
+                if (e.second(n, cv))
+                    setCellBE(expect, cell, cv);
+                else
+                    setCellBE(expect, cell, getCellBE(img, cell));  // no value prescribed for this length
+            }
+            VF_CHECK(img == expect, d.name << ": op " << i << ": setData of " << n << " bytes (held " << held << "): raw header " << hexOf(img) << ", the layout prescribes " << hexOf(expect));
+            VF_CHECK(d.data(o) == bytes, d.name << ": op " << i << ": setData of " << n << " bytes: the bytes behind the header differ from the data");
+            ++writes;
+            wide = true;
+            info.tag("data_setter");
+            continue;
+        }
         const auto& f = d.fields[c.ops[i].field % d.fields.size()];
         if (!f.set)
             continue;
@@ -503,6 +534,8 @@ static rc::Gen<Case> genCase(int tier)
         {
             Op op;
             op.field = *range<uint16_t>(0, 63);
+            if (c.mode == 0 && *range<int>(0, 7) == 0)
+                op.field = 0x8000;  // data setter, for the classes that have one
             op.value = *rc::gen::weightedOneOf<uint64_t>(
                 {{2, rc::gen::element<uint64_t>(0, 1, 0xFFFFFFFFFFFFFFFFull, 0xFFFFFFFFFFFFFFFEull, 0x5555555555555555ull, 0xAAAAAAAAAAAAAAAAull, 0x0102030405060708ull)},
                  {1, rc::gen::map(range<int>(0, 63), [](int b) { return static_cast<uint64_t>(1ull << b); })},
